@@ -312,12 +312,14 @@ where
 // Combine all alements from `v` that is not made redundant by `other`
 // with those from `other` that is not redunant with `v`, into `v`
 // (leaving `other` empty).
+// An element is redundant if it is a superselector of (that is, a
+// weaker constraint than) an element of the other vector.
 fn combine_vital<T, Q>(v: &mut Vec<T>, other: &mut Vec<T>, q: Q)
 where
     Q: Fn(&T, &T) -> bool,
 {
-    v.retain(|a| !other.iter().any(|b| q(b, a)));
-    other.retain(|a| !v.iter().any(|b| q(b, a)));
+    v.retain(|a| !other.iter().any(|b| q(a, b)));
+    other.retain(|a| !v.iter().any(|b| q(a, b)));
     v.append(other);
 }
 
